@@ -20,6 +20,7 @@ from .. import core
 from ..core import (And, Iff, Implies, Not, Or, PyExc, SAny, SBool, SNum, SStr, Sym,
                     Unsupported, cur, ite, py_eq)
 from .pandas_lite import RowSpace, _always, _i, _term, _wrap, _zb, rx, SymSet
+from ..interp import OtherException
 
 CHECK_OUTPUT_KEY = "check_output"
 
@@ -393,6 +394,9 @@ class FrameP:
             out[ee.name] = ee.ev(self)
             agg = agg or getattr(ee, "aggregate", False)
         for k, e in named.items():
+            if getattr(e, "fold", None) is not None:
+                out[k] = e.fold(self)
+                continue
             out[k] = e.ev(self)
             agg = agg or getattr(e, "aggregate", False)
         return self.derive(cols=out, agg=agg)
@@ -662,6 +666,31 @@ def install(I):
         raise Unsupported("pl.LazyFrame(...)")
 
     M[id(pl.LazyFrame)] = lazyframe_ctor
+
+    def dataframe_ctor(I, data=None, **kw):
+        """pl.DataFrame({name: single-column DataFrame | None, ...}): one column per entry (a None entry becomes an
+        all-null column of dtype Null); raises ShapeError when the heights differ (frames over different row spaces)"""
+        if isinstance(data, dict):
+            cols, space, sel = {}, None, None
+            for k, v in data.items():
+                if isinstance(v, FrameP):
+                    if len(v.cols) != 1:
+                        raise Unsupported("pl.DataFrame of multi-column frames")
+                    if space is None:
+                        space, sel = v.space, v._sel
+                    elif v.space is not space:
+                        raise PyExc(I.make_exc(OtherException, "ShapeError: heights differ"))
+                    cols[k] = next(iter(v.cols.values()))
+                elif v is None:
+                    cols[k] = Col(lambda i: False, lambda i: z3.BoolVal(True), "null")
+                else:
+                    raise Unsupported(f"pl.DataFrame column of {type(v).__name__}")
+            if space is None:
+                space = RowSpace("empty", SNum(z3.IntVal(0)))
+            return FrameP(space, cols, sel, kind="DataFrame")
+        raise Unsupported("pl.DataFrame(...)")
+
+    M[id(pl.DataFrame)] = dataframe_ctor
     from pandera.api.polars import utils as putils
 
     M[id(putils.get_lazyframe_schema)] = lambda I, lf: lf.collect_schema()
